@@ -34,4 +34,194 @@ package builtInFunctions
 //@   ensures[C02,C05] err == nil ==> forall(a, addr, k, bseq, !(a == seq(vmInput.CallerAddr) && k == Kesdt(seq(vmInput.Arguments[0]))) ==> St[a][k] == old(St)[a][k])
 //@   ensures[C04] err == nil && !readFailed && !vmInput.ReturnCallAfterError && seq(vmInput.CallerAddr) != seq(vmcommon.ESDTSCAddress) ==> !frozen(old(St), seq(vmInput.CallerAddr), Kesdt(seq(vmInput.Arguments[0]))) && !paused(old(St), Kesdt(seq(vmInput.Arguments[0])))
 //@   ensures[C15] err == nil ==> WFvalues(St)
+//@   modifies St, failed, readFailed, loadFailed
+
+// ---- ESDTLocalBurn ---------------------------------------------------------------------------------
+
+//@ func (e *esdtLocalBurn) ProcessBuiltinFunction
+//@   params e, acntSnd, acntDst, vmInput
+//@   results out, err
+//@   requires e != nil && locksFree()
+//@   requires !isNil(e.marshalizer) && !isNil(e.pauseHandler) && !isNil(e.rolesHandler) && esdtPrefix(e.keyPrefix)
+//@   requires sndIsCaller(acntSnd, vmInput) && WFvalues(St)
+//@   ensures[C11] shape(out, err)
+//@   ensures[C06] err == nil ==> out.GasRemaining <= vmInput.GasProvided && out.OutputAccounts == nil
+//@   ensures[C16] err == nil ==> vmInput.GasProvided - out.GasRemaining == e.funcGasCost
+//@   ensures[C17] err == nil ==> failed == old(failed)
+//@   ensures[C03] err == nil && !readFailed ==> hasRole(old(St), seq(vmInput.CallerAddr), seq(vmInput.Arguments[0]), "ESDTRoleLocalBurn")
+//@   ensures[C02] err == nil && !readFailed ==> val(St, seq(vmInput.CallerAddr), Kesdt(seq(vmInput.Arguments[0]))) == val(old(St), seq(vmInput.CallerAddr), Kesdt(seq(vmInput.Arguments[0]))) - beval(seq(vmInput.Arguments[1])) && val(St, seq(vmInput.CallerAddr), Kesdt(seq(vmInput.Arguments[0]))) >= 0
+//@   ensures[C02,C05] err == nil ==> onlyChanged(St, old(St), seq(vmInput.CallerAddr), Kesdt(seq(vmInput.Arguments[0])))
+//@   ensures[C04] err == nil && !readFailed && !vmInput.ReturnCallAfterError && seq(vmInput.CallerAddr) != ESDTSC() ==> !frozen(old(St), seq(vmInput.CallerAddr), Kesdt(seq(vmInput.Arguments[0]))) && !paused(old(St), Kesdt(seq(vmInput.Arguments[0])))
+//@   ensures[C15] err == nil ==> WFvalues(St)
+//@   modifies St, failed, readFailed, loadFailed
+
+// ---- ESDTBurn --------------------------------------------------------------------------------------
+
+//@ func (e *esdtBurn) ProcessBuiltinFunction
+//@   params e, acntSnd, acntDst, vmInput
+//@   results out, err
+//@   requires e != nil && locksFree()
+//@   requires !isNil(e.marshalizer) && !isNil(e.pauseHandler) && esdtPrefix(e.keyPrefix)
+//@   requires sndIsCaller(acntSnd, vmInput) && WFvalues(St)
+//@   ensures[C11] shape(out, err)
+//@   ensures[C06] err == nil ==> onlyRcpt(out, seq(vmInput.RecipientAddr)) && out.GasRemaining + fwdGas(out, seq(vmInput.RecipientAddr)) <= vmInput.GasProvided
+//@   ensures[C16] err == nil ==> out.GasRemaining + fwdGas(out, seq(vmInput.RecipientAddr)) == vmInput.GasProvided - e.funcGasCost
+//@   ensures[C17] err == nil ==> failed == old(failed)
+//@   ensures[C02] err == nil && !readFailed ==> val(St, seq(vmInput.CallerAddr), Kesdt(seq(vmInput.Arguments[0]))) == val(old(St), seq(vmInput.CallerAddr), Kesdt(seq(vmInput.Arguments[0]))) - beval(seq(vmInput.Arguments[1])) && val(St, seq(vmInput.CallerAddr), Kesdt(seq(vmInput.Arguments[0]))) >= 0
+//@   ensures[C02,C05] err == nil ==> onlyChanged(St, old(St), seq(vmInput.CallerAddr), Kesdt(seq(vmInput.Arguments[0])))
+//@   ensures[C04] err == nil && !readFailed && !vmInput.ReturnCallAfterError && seq(vmInput.CallerAddr) != ESDTSC() ==> !frozen(old(St), seq(vmInput.CallerAddr), Kesdt(seq(vmInput.Arguments[0]))) && !paused(old(St), Kesdt(seq(vmInput.Arguments[0])))
+//@   ensures[C15] err == nil ==> WFvalues(St)
+//@   modifies St, failed, readFailed, loadFailed
+
+// ---- ESDTFreeze / ESDTUnFreeze / ESDTWipe ------------------------------------------------------------
+
+//@ func (e *esdtFreezeWipe) ProcessBuiltinFunction
+//@   params e, acntSnd, acntDst, vmInput
+//@   results out, err
+//@   requires e != nil && !isNil(e.marshalizer) && esdtPrefix(e.keyPrefix)
+//@   requires vmInput == nil || vmInput.CallValue != nil
+//@   requires dstIsRecipient(acntDst, vmInput) && WFvalues(St)
+//@   ensures[C11] shape(out, err)
+//@   ensures[C06] err == nil ==> out.GasRemaining == 0 && out.OutputAccounts == nil
+//@   ensures[C17] err == nil ==> failed == old(failed)
+//@   ensures[C03] err == nil ==> seq(vmInput.CallerAddr) == ESDTSC()
+//@   ensures[C02,C05] err == nil ==> onlyChanged(St, old(St), seq(vmInput.RecipientAddr), Kesdt(seq(vmInput.Arguments[0])))
+//@   ensures[C02] err == nil && !readFailed && e.wipe ==> frozen(old(St), seq(vmInput.RecipientAddr), Kesdt(seq(vmInput.Arguments[0]))) && len(St[seq(vmInput.RecipientAddr)][Kesdt(seq(vmInput.Arguments[0]))]) == 0
+//@   ensures[C02,C04] err == nil && !readFailed && !e.wipe ==> val(St, seq(vmInput.RecipientAddr), Kesdt(seq(vmInput.Arguments[0]))) == val(old(St), seq(vmInput.RecipientAddr), Kesdt(seq(vmInput.Arguments[0])))
+//@   ensures[C04] err == nil && !readFailed && !e.wipe ==> frozen(St, seq(vmInput.RecipientAddr), Kesdt(seq(vmInput.Arguments[0]))) == e.freeze
+//@   ensures[C15] err == nil ==> WFvalues(St)
 //@   modifies St, failed, readFailed
+
+// ---- ESDTPause / ESDTUnPause ---------------------------------------------------------------------------
+
+//@ func (e *esdtPause) ProcessBuiltinFunction
+//@   params e, acntSnd, acntDst, vmInput
+//@   results out, err
+//@   requires e != nil && !isNil(e.accounts) && esdtPrefix(e.keyPrefix)
+//@   requires vmInput == nil || vmInput.CallValue != nil
+//@   ensures[C11] shape(out, err)
+//@   ensures[C06] err == nil ==> out.GasRemaining == 0 && out.OutputAccounts == nil
+//@   ensures[C17] err == nil ==> failed == old(failed)
+//@   ensures[C03] err == nil ==> seq(vmInput.CallerAddr) == ESDTSC()
+//@   ensures[C02,C05] err == nil ==> onlyChanged(St, old(St), SYS(), Kesdt(seq(vmInput.Arguments[0])))
+//@   ensures[C04] err == nil ==> paused(St, Kesdt(seq(vmInput.Arguments[0]))) == e.pause
+//@   modifies St, failed, readFailed, loadFailed
+
+//@ func (e *esdtPause) IsPaused
+//@   implements vmcommon.ESDTPauseHandler.IsPaused
+//@   requires e != nil && !isNil(e.accounts)
+
+// ---- shared helpers ------------------------------------------------------------------------------------
+
+//@ func arePropertiesEmpty
+//@   loop 0 invariant forall(j, int, 0 <= j && j <= rangeindex ==> seq(properties)[j] == 0)
+//@   ensures r == forall(j, int, 0 <= j && j < len(properties) ==> seq(properties)[j] == 0)
+//@   ensures len(properties) == 2 ==> r == (seq(properties)[0] == 0 && seq(properties)[1] == 0)
+//@   ensures len(properties) == 0 ==> r
+
+// ---- ESDTNFTAddQuantity ------------------------------------------------------------------------------
+// "aligned": the entry stored under the requested (token, nonce) carries metadata with that nonce.
+// The non-aligned case is the known finding F8(b) (entry read under one key, written under another).
+
+//@ func (e *esdtNFTAddQuantity) ProcessBuiltinFunction
+//@   params e, acntSnd, acntDst, vmInput
+//@   results out, err
+//@   view tok = seq(vmInput.Arguments[0])
+//@   view n = beval(seq(vmInput.Arguments[1])) % 18446744073709551616
+//@   view snd = seq(vmInput.CallerAddr)
+//@   requires e != nil && locksFree()
+//@   requires !isNil(e.marshalizer) && !isNil(e.pauseHandler) && !isNil(e.rolesHandler) && esdtPrefix(e.keyPrefix)
+//@   requires sndIsCaller(acntSnd, vmInput) && WFvalues(St)
+//@   ensures[C11] shape(out, err)
+//@   ensures[C06] err == nil ==> out.GasRemaining <= vmInput.GasProvided && out.OutputAccounts == nil
+//@   ensures[C16] err == nil ==> vmInput.GasProvided - out.GasRemaining == e.funcGasCost
+//@   ensures[C17] err == nil ==> failed == old(failed)
+//@   ensures[C03] err == nil && !readFailed ==> hasRole(old(St), snd, tok, "ESDTRoleNFTAddQuantity")
+//@   ensures[C02] err == nil && !readFailed ==> n > 0 && len(old(St)[snd][Knft(tok, n)]) != 0
+//@   ensures[C02] err == nil && !readFailed && dHasMeta(old(St)[snd][Knft(tok, n)]) && dMNonce(old(St)[snd][Knft(tok, n)]) == n ==> val(St, snd, Knft(tok, n)) == val(old(St), snd, Knft(tok, n)) + beval(seq(vmInput.Arguments[2])) && onlyChanged(St, old(St), snd, Knft(tok, n))
+//@   ensures[C02,kf:F8b] err == nil && !readFailed && !(dHasMeta(old(St)[snd][Knft(tok, n)]) && dMNonce(old(St)[snd][Knft(tok, n)]) == n) ==> val(St, snd, Knft(tok, n)) == val(old(St), snd, Knft(tok, n)) + beval(seq(vmInput.Arguments[2])) && onlyChanged(St, old(St), snd, Knft(tok, n))
+//@   ensures[C05] err == nil && !readFailed ==> onlyChanged(St, old(St), snd, Knft(tok, ite(dHasMeta(old(St)[snd][Knft(tok, n)]), dMNonce(old(St)[snd][Knft(tok, n)]), 0)))
+//@   ensures[C04] err == nil && !readFailed && !vmInput.ReturnCallAfterError && snd != ESDTSC() ==> !frozen(old(St), snd, Knft(tok, n)) && !paused(old(St), Kesdt(tok))
+//@   ensures[C15] err == nil ==> WFvalues(St)
+//@   modifies St, failed, readFailed, loadFailed
+
+// ---- ESDTNFTBurn ---------------------------------------------------------------------------------------
+
+//@ func (e *esdtNFTBurn) ProcessBuiltinFunction
+//@   params e, acntSnd, acntDst, vmInput
+//@   results out, err
+//@   view tok = seq(vmInput.Arguments[0])
+//@   view n = beval(seq(vmInput.Arguments[1])) % 18446744073709551616
+//@   view snd = seq(vmInput.CallerAddr)
+//@   requires e != nil && locksFree()
+//@   requires !isNil(e.marshalizer) && !isNil(e.pauseHandler) && !isNil(e.rolesHandler) && esdtPrefix(e.keyPrefix)
+//@   requires sndIsCaller(acntSnd, vmInput) && WFvalues(St)
+//@   ensures[C11] shape(out, err)
+//@   ensures[C06] err == nil ==> out.GasRemaining <= vmInput.GasProvided && out.OutputAccounts == nil
+//@   ensures[C16] err == nil ==> vmInput.GasProvided - out.GasRemaining == e.funcGasCost
+//@   ensures[C17] err == nil ==> failed == old(failed)
+//@   ensures[C03] err == nil && !readFailed ==> hasRole(old(St), snd, tok, "ESDTRoleNFTBurn")
+//@   ensures[C02] err == nil && !readFailed ==> n > 0 && len(old(St)[snd][Knft(tok, n)]) != 0 && val(old(St), snd, Knft(tok, n)) >= beval(seq(vmInput.Arguments[2]))
+//@   ensures[C02] err == nil && !readFailed && dHasMeta(old(St)[snd][Knft(tok, n)]) && dMNonce(old(St)[snd][Knft(tok, n)]) == n ==> val(St, snd, Knft(tok, n)) == val(old(St), snd, Knft(tok, n)) - beval(seq(vmInput.Arguments[2])) && onlyChanged(St, old(St), snd, Knft(tok, n))
+//@   ensures[C02,kf:F8b] err == nil && !readFailed && !(dHasMeta(old(St)[snd][Knft(tok, n)]) && dMNonce(old(St)[snd][Knft(tok, n)]) == n) ==> val(St, snd, Knft(tok, n)) == val(old(St), snd, Knft(tok, n)) - beval(seq(vmInput.Arguments[2])) && onlyChanged(St, old(St), snd, Knft(tok, n))
+//@   ensures[C05] err == nil && !readFailed ==> onlyChanged(St, old(St), snd, Knft(tok, ite(dHasMeta(old(St)[snd][Knft(tok, n)]), dMNonce(old(St)[snd][Knft(tok, n)]), 0)))
+//@   ensures[C04] err == nil && !readFailed && !vmInput.ReturnCallAfterError && snd != ESDTSC() ==> !frozen(old(St), snd, Knft(tok, n)) && !paused(old(St), Kesdt(tok))
+//@   ensures[C15] err == nil ==> WFvalues(St)
+//@   modifies St, failed, readFailed, loadFailed
+
+// ---- ESDTNFTUpdateAttributes -----------------------------------------------------------------------------
+
+//@ func (e *esdtNFTupdate) ProcessBuiltinFunction
+//@   params e, acntSnd, acntDst, vmInput
+//@   results out, err
+//@   view tok = seq(vmInput.Arguments[0])
+//@   view n = beval(seq(vmInput.Arguments[1])) % 18446744073709551616
+//@   view snd = seq(vmInput.CallerAddr)
+//@   view old0 = St[seq(vmInput.CallerAddr)][Knft(seq(vmInput.Arguments[0]), beval(seq(vmInput.Arguments[1])) % 18446744073709551616)]
+//@   requires e != nil && locksFree()
+//@   requires !isNil(e.marshalizer) && !isNil(e.pauseHandler) && !isNil(e.rolesHandler) && esdtPrefix(e.keyPrefix)
+//@   requires sndIsCaller(acntSnd, vmInput) && WFvalues(St)
+//@   requires argBounds(vmInput) && costBound(e.funcGasCost) && costBound(e.gasConfig.StorePerByte)
+//@   ensures[C11] shape(out, err)
+//@   ensures[C06] err == nil ==> out.GasRemaining <= vmInput.GasProvided && out.OutputAccounts == nil
+//@   ensures[C16] err == nil ==> vmInput.GasProvided - out.GasRemaining == e.funcGasCost + e.gasConfig.StorePerByte * len(vmInput.Arguments[2])
+//@   ensures[C17] err == nil ==> failed == old(failed)
+//@   ensures[C03] err == nil && !readFailed ==> hasRole(old(St), snd, tok, "ESDTRoleNFTUpdateAttributes")
+//@   ensures[C02] err == nil && !readFailed && dHasMeta(old0) && dMNonce(old0) == n ==> val(St, snd, Knft(tok, n)) == val(old(St), snd, Knft(tok, n)) && onlyChanged(St, old(St), snd, Knft(tok, n))
+//@   ensures[C08] err == nil && !readFailed && dHasMeta(old0) && dMNonce(old0) == n && val(old(St), snd, Knft(tok, n)) > 0 ==> dMAttrs(St[snd][Knft(tok, n)]) == seq(vmInput.Arguments[2]) && dMName(St[snd][Knft(tok, n)]) == dMName(old0) && dMCreator(St[snd][Knft(tok, n)]) == dMCreator(old0) && dMRoy(St[snd][Knft(tok, n)]) == dMRoy(old0) && dMHash(St[snd][Knft(tok, n)]) == dMHash(old0) && dMNonce(St[snd][Knft(tok, n)]) == n && dType(St[snd][Knft(tok, n)]) == dType(old0) && dProps(St[snd][Knft(tok, n)]) == dProps(old0)
+//@   ensures[C05] err == nil && !readFailed ==> onlyChanged(St, old(St), snd, Knft(tok, ite(dHasMeta(old0), dMNonce(old0), 0)))
+//@   ensures[C04] err == nil && !readFailed && !vmInput.ReturnCallAfterError && snd != ESDTSC() ==> !frozen(old(St), snd, Knft(tok, n)) && !paused(old(St), Kesdt(tok))
+//@   ensures[C15] err == nil ==> WFvalues(St)
+//@   modifies St, failed, readFailed, loadFailed
+
+// ---- ESDTNFTAddURI -----------------------------------------------------------------------------------------
+
+//@ func (e *esdtNFTAddUri) getGasCostForURIStore
+//@   requires e != nil && vmInput != nil && len(vmInput.Arguments) >= 2 && argBounds(vmInput) && costBound(e.gasConfig.StorePerByte)
+//@   loop 0 invariant lenURIs == lsum(list(vmInput.Arguments), 2, rangeindex + 3) && rangeindex + 3 <= len(vmInput.Arguments)
+//@   ensures[C16] r == e.gasConfig.StorePerByte * lsum(list(vmInput.Arguments), 2, len(vmInput.Arguments))
+//@   ensures[C06] r < 1152921504606846976
+
+//@ func (e *esdtNFTAddUri) ProcessBuiltinFunction
+//@   params e, acntSnd, acntDst, vmInput
+//@   results out, err
+//@   view tok = seq(vmInput.Arguments[0])
+//@   view n = beval(seq(vmInput.Arguments[1])) % 18446744073709551616
+//@   view snd = seq(vmInput.CallerAddr)
+//@   view old0 = St[seq(vmInput.CallerAddr)][Knft(seq(vmInput.Arguments[0]), beval(seq(vmInput.Arguments[1])) % 18446744073709551616)]
+//@   requires e != nil && locksFree()
+//@   requires !isNil(e.marshalizer) && !isNil(e.pauseHandler) && !isNil(e.rolesHandler) && esdtPrefix(e.keyPrefix)
+//@   requires sndIsCaller(acntSnd, vmInput) && WFvalues(St)
+//@   requires argBounds(vmInput) && costBound(e.funcGasCost) && costBound(e.gasConfig.StorePerByte)
+//@   ensures[C11] shape(out, err)
+//@   ensures[C06] err == nil ==> out.GasRemaining <= vmInput.GasProvided && out.OutputAccounts == nil
+//@   ensures[C16] err == nil ==> vmInput.GasProvided - out.GasRemaining == e.funcGasCost + e.gasConfig.StorePerByte * lsum(list(vmInput.Arguments), 2, len(vmInput.Arguments))
+//@   ensures[C17] err == nil ==> failed == old(failed)
+//@   ensures[C03] err == nil && !readFailed ==> hasRole(old(St), snd, tok, "ESDTRoleNFTAddURI")
+//@   ensures[C02] err == nil && !readFailed && dHasMeta(old0) && dMNonce(old0) == n ==> val(St, snd, Knft(tok, n)) == val(old(St), snd, Knft(tok, n)) && onlyChanged(St, old(St), snd, Knft(tok, n))
+//@   ensures[C08] err == nil && !readFailed && dHasMeta(old0) && dMNonce(old0) == n && val(old(St), snd, Knft(tok, n)) > 0 ==> dMAttrs(St[snd][Knft(tok, n)]) == dMAttrs(old0) && dMName(St[snd][Knft(tok, n)]) == dMName(old0) && dMCreator(St[snd][Knft(tok, n)]) == dMCreator(old0) && dMRoy(St[snd][Knft(tok, n)]) == dMRoy(old0) && dMHash(St[snd][Knft(tok, n)]) == dMHash(old0) && dMNonce(St[snd][Knft(tok, n)]) == n && dType(St[snd][Knft(tok, n)]) == dType(old0) && dProps(St[snd][Knft(tok, n)]) == dProps(old0)
+//@   ensures[C08] err == nil && !readFailed && dHasMeta(old0) && dMNonce(old0) == n && val(old(St), snd, Knft(tok, n)) > 0 ==> llen(dMURIs(St[snd][Knft(tok, n)])) == llen(dMURIs(old0)) + len(vmInput.Arguments) - 2 && forall(i, int, 0 <= i && i < llen(dMURIs(old0)) ==> lnth(dMURIs(St[snd][Knft(tok, n)]), i) == lnth(dMURIs(old0), i)) && forall(i, int, 2 <= i && i < len(vmInput.Arguments) ==> lnth(dMURIs(St[snd][Knft(tok, n)]), llen(dMURIs(old0)) + i - 2) == seq(vmInput.Arguments[i]))
+//@   ensures[C05] err == nil && !readFailed ==> onlyChanged(St, old(St), snd, Knft(tok, ite(dHasMeta(old0), dMNonce(old0), 0)))
+//@   ensures[C04] err == nil && !readFailed && !vmInput.ReturnCallAfterError && snd != ESDTSC() ==> !frozen(old(St), snd, Knft(tok, n)) && !paused(old(St), Kesdt(tok))
+//@   ensures[C15] err == nil ==> WFvalues(St)
+//@   modifies St, failed, readFailed, loadFailed
